@@ -154,3 +154,48 @@ Theorem C01_smbo_proposal : forall sp cons (comb : list pos) acq i p, dims_ok sp
   forallb (emit_b sp cons) comb = true -> proposal_ok comb acq i p = true -> emit_ok sp cons p.
 Proof. exact smbo_proposal_emit. Qed.
 Print Assumptions C01_smbo_proposal.
+
+Require Import PyPrims PyPrimsQ CoreGen CoreTie.
+
+(* ---------- the moves GENERATED from /repo's core_optimizer.py (generated/CoreGen.v; ties in proofs/CoreTie.v): whatever
+   move_random / conv2pos / move_climb / the random_iteration wrapper of the SOURCE return is in the box, for every tape *)
+Theorem C01_source_move_random_equals_model : forall sp cons fuel self,
+  abs_out (g_core_move_random sp cons fuel self) = move_random sp cons fuel (cg_tape self) (cg_ncalls self).
+Proof. exact move_random_tie. Qed.
+Print Assumptions C01_source_move_random_equals_model.
+
+Theorem C01_source_conv2pos_equals_model : forall sp cons fuel self xs,
+  abs_out (g_core_conv2pos sp cons fuel self xs) = conv2pos sp cons fuel xs (cg_tape self) (cg_ncalls self).
+Proof. exact conv2pos_tie. Qed.
+Print Assumptions C01_source_conv2pos_equals_model.
+
+Theorem C01_source_move_climb_same_results : forall sp cons fuel self p0,
+  (forall s' p, g_core_move_climb sp cons fuel self p0 = Ok (s', p) ->
+     exists fuel', move_climb sp cons fuel' (cg_tape self) (cg_ncalls self) = Ok (p, cg_tape s', cg_ncalls s')) /\
+  (forall p t' c', move_climb sp cons fuel (cg_tape self) (cg_ncalls self) = Ok (p, t', c') ->
+     g_core_move_climb sp cons fuel self p0 = Ok (mkGCore t' c', p)).
+Proof. intros. split; [apply move_climb_tie_sound|apply move_climb_tie_complete]. Qed.
+Print Assumptions C01_source_move_climb_same_results.
+
+Theorem C01_source_move_random_in_box : forall sp cons fuel self s' p,
+  g_core_move_random sp cons fuel self = Ok (s', p) -> in_box sp p.
+Proof. intros sp cons fuel self s' p H. destruct (source_move_random_ok sp cons fuel self s' p H) as [[A _] _]. exact A. Qed.
+Print Assumptions C01_source_move_random_in_box.
+
+Theorem C01_source_conv2pos_in_box : forall sp cons fuel self xs s' p, dims_ok sp -> length xs = length sp ->
+  Forall (fun x => x <> XNaN) xs -> g_core_conv2pos sp cons fuel self xs = Ok (s', p) -> in_box sp p.
+Proof. intros sp cons fuel self xs s' p Hd Hl Hx H. destruct (source_conv2pos_ok sp cons fuel self xs s' p Hd Hl Hx H) as [A _]. exact A. Qed.
+Print Assumptions C01_source_conv2pos_in_box.
+
+Theorem C01_source_move_climb_in_box : forall sp cons fuel self p0 s' p, dims_ok sp -> nan_free (cg_tape self) ->
+  g_core_move_climb sp cons fuel self p0 = Ok (s', p) -> in_box sp p.
+Proof. intros sp cons fuel self p0 s' p Hd Hn H. destruct (source_move_climb_ok sp cons fuel self p0 s' p Hd Hn H) as [[A _] _]. exact A. Qed.
+Print Assumptions C01_source_move_climb_in_box.
+
+(* the decorator: for ANY decorated iterate whose results are in the box, so are the decorated function's *)
+Theorem C01_source_random_iteration_in_box : forall sp cons rrp_m rrp_e body fuel self s' p,
+  (forall s0 s1 p0, nan_free (cg_tape s0) -> body s0 = Ok (s1, p0) ->
+     emit_ok sp cons p0 /\ is_suffix (cg_tape s1) (cg_tape s0) /\ cg_ncalls s0 < cg_ncalls s1) ->
+  nan_free (cg_tape self) -> g_core_random_iteration sp cons rrp_m rrp_e body fuel self = Ok (s', p) -> in_box sp p.
+Proof. intros sp cons rm re body fuel self s' p Hb Hn H. destruct (source_random_iteration_ok sp cons rm re body fuel self s' p Hb Hn H) as [[A _] _]. exact A. Qed.
+Print Assumptions C01_source_random_iteration_in_box.
